@@ -32,6 +32,10 @@ try:
         E.k7_loop(lib, rep, r"^msgpack::transcode$", "msgpack", n)
         E.k7_loop(lib, rep, r"^json::transcode$", "json", n)
         E.k7_loop(lib, rep, r"^transcode_reader$", "yaml_reader", n)
+    elif group == "e3_k9_chunker":
+        X.load_enums(os.path.join(src, "src/yaml/chunker.rs"))
+        lib = X.Mir(os.path.join(os.path.dirname(mirf), "lib.mir"))
+        E.k9_chunker_next(lib, rep, 4 if tier == "thorough" else 3)
     elif group == "e3_k8_from_reader":
         lib = X.Mir(os.path.join(os.path.dirname(mirf), "lib.mir"))
         E.k8_from_reader(lib, rep)
